@@ -61,7 +61,13 @@ func c06Priors() (out [][]byte) {
 	ns, _ := dns.NewRR("example. 300 IN NS ns.secret-four.example.")
 	v4.Ns = []dns.RR{ns}
 
-	return [][]byte{c06Pack(v1), c06Pack(v2), c06Pack(v3), c06Pack(v4)}
+	// The shortest exchange there is: whatever buffer served it has held only
+	// a few dozen octets.
+	v5 := &dns.Msg{}
+	v5.SetQuestion("a.", dns.TypeA)
+	v5.Id = 0x5555
+
+	return [][]byte{c06Pack(v1), c06Pack(v2), c06Pack(v3), c06Pack(v4), c06Pack(v5)}
 }
 
 // c06Probes returns the next messages: short or inconsistent ones, and a
@@ -90,7 +96,13 @@ func c06Probes(thorough bool) (out [][]byte) {
 
 		return b
 	}
+	// A valid query that is longer than the earlier messages and their
+	// responses.
+	long := &dns.Msg{}
+	long.SetQuestion(strings.Repeat("x", 60)+"."+strings.Repeat("y", 60)+"."+strings.Repeat("z", 60)+".probe.example.", dns.TypeA)
+	long.Id = 0x7778
 	out = append(out,
+		c06Pack(long),       // valid long query
 		full,                // valid minimal query
 		hdr(1, 0, 0, 0),     // header only, declares one question
 		full[:12+6],         // header + half a name
@@ -185,10 +197,28 @@ func (c *c06Conn) SetWriteDeadline(time.Time) error { return nil }
 type c06Stream struct {
 	quic.Stream
 	r *bytes.Reader
+	w bytes.Buffer
 }
 
 func (s *c06Stream) Read(p []byte) (int, error)      { return s.r.Read(p) }
+func (s *c06Stream) Write(p []byte) (int, error)     { return s.w.Write(p) }
+func (s *c06Stream) Close() error                    { return nil }
 func (s *c06Stream) SetReadDeadline(time.Time) error { return nil }
+
+// c06QUICConn is the connection a DoQ stream belongs to: it records whether
+// the server closed it with an error.
+type c06QUICConn struct {
+	quic.Connection
+	closed string
+}
+
+func (c *c06QUICConn) LocalAddr() net.Addr  { return &net.UDPAddr{IP: net.IP{127, 0, 0, 1}, Port: 853} }
+func (c *c06QUICConn) RemoteAddr() net.Addr { return &net.UDPAddr{IP: net.IP{192, 0, 2, 9}, Port: 4000} }
+func (c *c06QUICConn) CloseWithError(code quic.ApplicationErrorCode, _ string) error {
+	c.closed = fmt.Sprintf("closed(%d)", code)
+
+	return nil
+}
 
 // ---- Paths -----------------------------------------------------------------
 
@@ -290,9 +320,17 @@ func (p *c06DoQ) feed(msg []byte) string {
 	p.fed++
 	binary.BigEndian.PutUint16(framed, uint16(pfx))
 	copy(framed[2:], msg)
-	m, err := p.s.readQUICMsg(context.Background(), &c06Stream{r: bytes.NewReader(framed)})
+	// The whole stream is served by the real serveQUICStream: what the handler
+	// decoded, what was written back and whether the connection was closed.
+	h := p.s.handler.(*c06Handler)
+	before := len(h.seen)
+	st := &c06Stream{r: bytes.NewReader(framed)}
+	conn := &c06QUICConn{}
+	ctx := ContextWithServerInfo(context.Background(), &ServerInfo{Name: "verif", Addr: "127.0.0.1:853", Proto: ProtoDoQ})
+	ctx = ContextWithRequestInfo(ctx, &RequestInfo{StartTime: time.Unix(1700000000, 0)})
+	err := p.s.serveQUICStream(ctx, st, conn)
 
-	return fmt.Sprintf("err=%v decoded=%s", err != nil, c06MsgString(m))
+	return fmt.Sprintf("err=%v decoded=%q written=%x %s", err != nil, h.seen[before:], st.w.Bytes(), conn.closed)
 }
 
 type c06DoH struct {
